@@ -3,7 +3,7 @@
    wrote as text lines into the stand-in helper -- the lines verbatim -- and what the REAL in port (in.go, through
    midicat.ReadAndConvert) handed to its listener after the helper pair echoed them.  TLC checks that every line is a line of the
    specification's grammar denoting (0, bytes) and the received records against the messages sent (lossless, one per line). *)
-EXTENDS MidicatLine, TLC, Json, IOUtils
+EXTENDS MidicatLine, FiniteSets, TLC, Json, IOUtils
 VARIABLES l, bad
 Trace == ndJsonDeserialize(IOEnv.VERIF_TRACE)
 
@@ -12,13 +12,21 @@ Judge(e) ==
   \* is left free (C.8): what matters is that it is lossless and self-framing
   LET LineOk(ln, m) == /\ Len(ln) >= 2 /\ ln[Len(ln)] = LF /\ \A i \in 1..(Len(ln) - 1) : ln[i] # LF
                        /\ Denote(SubSeq(ln, 1, Len(ln) - 1), TRUE) = Rec(0, m)
-      linesOk == /\ Len(e.lines) = Len(e.msgs)
-                 /\ \A i \in 1..Len(e.msgs) : LineOk(e.lines[i], e.msgs[i])
-      backOk  == /\ e.got = e.msgs
+      \* concurrent senders (e.par > 1): the order of the lines is free, but every line is still ONE whole line of the grammar
+      \* (no interleaving of two sends) and lines / received records are, as multisets, the messages sent
+      Bag(q) == [x \in {q[i] : i \in 1..Len(q)} |-> Cardinality({i \in 1..Len(q) : q[i] = x})]
+      Whole(ln) == Len(ln) >= 2 /\ ln[Len(ln)] = LF /\ \A i \in 1..(Len(ln) - 1) : ln[i] # LF
+      DenOf(ln) == IF Whole(ln) THEN Denote(SubSeq(ln, 1, Len(ln) - 1), TRUE) ELSE Err
+      linesOk == IF e.par > 1
+                 THEN /\ Len(e.lines) = Len(e.msgs)
+                      /\ Bag([i \in 1..Len(e.lines) |-> DenOf(e.lines[i])]) = Bag([i \in 1..Len(e.msgs) |-> Rec(0, e.msgs[i])])
+                 ELSE /\ Len(e.lines) = Len(e.msgs)
+                      /\ \A i \in 1..Len(e.msgs) : LineOk(e.lines[i], e.msgs[i])
+      backOk  == /\ (IF e.par > 1 THEN Bag(e.got) = Bag(e.msgs) ELSE e.got = e.msgs)
                  /\ \A i \in 1..Len(e.gotts) : e.gotts[i] = 0
   IN [ok |-> e.pan = "" /\ linesOk /\ backOk,
       info |-> [id |-> e.id, linesOk |-> linesOk, backOk |-> backOk, pan |-> e.pan,
-                firstBadLine |-> IF Len(e.lines) = Len(e.msgs) THEN {i \in 1..Len(e.msgs) : ~LineOk(e.lines[i], e.msgs[i])} ELSE {0}]]
+                firstBadLine |-> IF e.par > 1 THEN {} ELSE IF Len(e.lines) = Len(e.msgs) THEN {i \in 1..Len(e.msgs) : ~LineOk(e.lines[i], e.msgs[i])} ELSE {0}]]
 
 Init == l = 1 /\ bad = <<>>
 Next == \/ /\ l <= Len(Trace)
